@@ -855,3 +855,38 @@ Proof.
   - inversion H; subst. pose proof (merge_labels_err _ _ _ _ _ EM) as Hl.
     destruct sp as [|s1 [|s2 [|s3 r]]]; try discriminate. split; [discriminate|]. split; [eexists; reflexivity|]. split; [discriminate|reflexivity].
 Qed.
+
+(* ---------- addr_iter lists exactly the image ---------- *)
+Lemma block_addrs_in s ws : forall i addr w, 0 <= s -> 0 <= i -> s + i + zlen ws <= 65536 ->
+  (In (addr, w) (block_addrs s ws i) <->
+   exists j, i <= j < i + zlen ws /\ addr = s + j /\ nth_error ws (Z.to_nat (j - i)) = Some w).
+Proof.
+  induction ws as [|x r IH]; intros i addr w Hs Hi Hb; cbn [block_addrs In].
+  - split; [intros []|]. intros (j & Hj & _). unfold zlen in Hj. cbn in Hj. lia.
+  - rewrite zlen_cons in Hb. pose proof (zlen_nonneg r).
+    rewrite (IH (i + 1) addr w Hs) by lia. rewrite wrap16_small by lia. split.
+    + intros [E|(j & Hj & Ej & En)].
+      * inversion E; subst. exists i. rewrite zlen_cons. replace (i - i) with 0 by lia. split; [lia|split; reflexivity].
+      * exists j. rewrite zlen_cons. repeat split; try lia.
+        replace (Z.to_nat (j - i)) with (S (Z.to_nat (j - (i + 1)))) by lia. exact En.
+    + intros (j & Hj & Ej & En). rewrite zlen_cons in Hj. destruct (Z.eq_dec j i) as [->|Hne].
+      * left. replace (i - i) with 0 in En by lia. cbn in En. inversion En; subst. reflexivity.
+      * right. exists j. repeat split; try lia.
+        replace (Z.to_nat (j - i)) with (S (Z.to_nat (j - (i + 1)))) in En by lia. exact En.
+Qed.
+
+Theorem addr_iter_image o addr w : ObjInv o -> (In (addr, w) (addr_iter o) <-> img_at o addr = Some w).
+Proof.
+  intro Io. pose proof (objinv_blocks _ Io) as Hb. rewrite img_at_blocks. unfold addr_iter.
+  pose proof (blocks_ok_sized 0 _ (Z.le_refl 0) Hb) as Hz. rewrite Forall_forall in Hz.
+  rewrite in_flat_map. split.
+  - intros ((s, ws) & Hin & Ha). destruct (Hz _ Hin) as (Z0 & Z1 & Z2). cbn [fst snd] in *.
+    apply (block_addrs_in s ws 0 addr w) in Ha; [|lia|lia|lia].
+    destruct Ha as (j & Hj & Ej & En). subst addr.
+    rewrite (img_blocks_of_in 0 _ (s + j) s ws Hb Hin); [|unfold covers; cbn; lia].
+    replace (s + j - s) with (j - 0) by lia. exact En.
+  - intro H. destruct (img_blocks_in _ _ _ H) as (s & ws & Hin & Hc & En). exists (s, ws). split; [exact Hin|].
+    destruct (Hz _ Hin) as (Z0 & Z1 & Z2). cbn [fst snd] in *. unfold covers in Hc. cbn in Hc.
+    apply (block_addrs_in s ws 0 addr w); [lia|lia|lia|]. exists (addr - s). repeat split; try lia.
+    replace (addr - s - 0) with (addr - s) by lia. exact En.
+Qed.
